@@ -437,8 +437,9 @@ def parse_stmt(p):
     if k == "id" and v == "unsafe" and p.at("{", 1):
         p.next()
         return ("unsafe", parse_block(p))
-    if k == "id" and v == "loop":
-        raise Unsupported(v)
+    if k == "id" and v == "loop" and p.at("{", 1):
+        p.next()
+        return ("while", ("bool", True), parse_block(p))
     e = parse_expr(p)
     for op in ("=", "+=", "-=", "*=", "/=", "^=", "|=", "&=", "<<=", ">>="):
         if p.at(op):
